@@ -43,11 +43,15 @@ Lemma bu_one_undecodable c d e :
   bu_comp e = CZstd -> b_clean (bu_body e) = false -> bu_one c d e = (d, SErr EInternal).
 Proof. intros HC HB. unfold bu_one. rewrite HC, HB. reflexivity. Qed.
 
+(* a compressor other than IDENTITY / ZSTD: per-blob InvalidArgument, nothing stored *)
+Lemma bu_one_unsupported c d e n : bu_comp e = COther n -> bu_one c d e = (d, bad).
+Proof. intros H. unfold bu_one. rewrite H. reflexivity. Qed.
+
 Lemma bu_one_wrong_length c d e :
-  (forall n, bu_comp e <> COther n) -> b_clean (bu_body e) = true -> b_len (bu_body e) <> bu_size e ->
+  b_clean (bu_body e) = true -> b_len (bu_body e) <> bu_size e ->
   bu_one c d e = (d, bad).
 Proof.
-  intros HC HB HL. unfold bu_one. destruct (bu_comp e) as [| |n] eqn:E; [| |exfalso; eapply HC; reflexivity].
+  intros HB HL. unfold bu_one. destruct (bu_comp e) as [| |n] eqn:E; [| |reflexivity].
   - cbn. replace (b_len (bu_body e) =? bu_size e) with false by lia. reflexivity.
   - rewrite HB. cbn. replace (b_len (bu_body e) =? bu_size e) with false by lia. reflexivity.
 Qed.
@@ -66,7 +70,7 @@ Section bs.
   Variables (c : fcfg) (d : dstate) (z : bool) (hash : string) (size : Z) (b : body) (rnd : string).
   Hypothesis Hsize : 0 <= size <= fc_grpc_max c.
   Hypothesis Hhash : validate_hash hash size = true.
-  Hypothesis Habsent : snd (fst (disk_contains c d CAS hash size)) = false.
+  Hypothesis Habsent : bs_shortcut (snd (fst (disk_contains c d CAS hash size))) hash size = false.
 
   Let d1 := fst (fst (disk_contains c d CAS hash size)).
 
@@ -79,7 +83,7 @@ Section bs.
   Proof.
     unfold bs_write, d1. replace (size <? 0) with false by lia. rewrite Hhash. cbn [negb].
     replace (size >? fc_grpc_max c) with false by lia.
-    destruct (disk_contains c d CAS hash size) as [[dx ex] fs]. cbn in Habsent. subst ex. reflexivity.
+    destruct (disk_contains c d CAS hash size) as [[dx ex] fs]. cbn [fst snd] in *. rewrite Habsent. reflexivity.
   Qed.
 
   (* non-zero first offset *)
@@ -178,18 +182,17 @@ Proof.
 Qed.
 
 Lemma bu_one_corrupt_rejected c d e d' st :
-  bu_one c d e = (d', st) -> (forall n, bu_comp e <> COther n) ->
+  bu_one c d e = (d', st) ->
   corrupt (bu_body e) (bu_size e) -> ~ empty_claim (bu_hash e) (bu_size e) (b_len (bu_body e)) -> st <> SOk.
 Proof.
-  intros H HN HC HE ->. destruct (bu_one_sound _ _ _ _ H) as [[n Hn]|[G|E]].
-  - exact (HN n Hn).
+  intros H HC HE ->. destruct (bu_one_sound _ _ _ _ H) as [G|E].
   - exact (corrupt_not_good _ _ HC G).
   - exact (HE E).
 Qed.
 
 Lemma bs_write_corrupt_rejected c d hash size msgs ab b rnd d' st :
   bs_write c d (WN true hash size) msgs ab b rnd = (d', st) ->
-  snd (fst (disk_contains c d CAS hash size)) = false ->
+  bs_shortcut (snd (fst (disk_contains c d CAS hash size))) hash size = false ->
   corrupt b size -> ~ empty_claim hash size (b_len b) -> st <> SOk.
 Proof.
   intros H HA HC HE ->. destruct (bs_write_sound _ _ _ _ _ _ _ _ H) as (z & h & s & HN & _ & _ & [P|[piped [_ G]]]).
@@ -200,7 +203,7 @@ Qed.
 (* blobs/: the bytes are counted by the receive loop; what is left to the disk layer is the hash *)
 Lemma bs_write_identity_wrong_hash_rejected c d hash size msgs ab b rnd d' st :
   bs_write c d (WN false hash size) msgs ab b rnd = (d', st) ->
-  snd (fst (disk_contains c d CAS hash size)) = false ->
+  bs_shortcut (snd (fst (disk_contains c d CAS hash size))) hash size = false ->
   b_hash_ok b = false -> hash <> emptySha256 -> st <> SOk.
 Proof.
   intros H HA HH HE ->. destruct (bs_write_sound _ _ _ _ _ _ _ _ H) as (z & h & s & HN & _ & _ & [P|[piped [_ G]]]).
